@@ -60,6 +60,62 @@ func constKeyLookups(info *types.Info, n ast.Node) []keyLookup {
 	return out
 }
 
+// helperKeyLookups finds calls helper(m, "key") of package helpers whose body looks m up by that string parameter
+// (`v, ok := m[key]`); required reports whether absence ends in an error there.
+type helperLookup struct {
+	key      string
+	call     *ast.CallExpr
+	required bool
+	commaOK  bool
+}
+
+func helperKeyLookups(p *core.Prog, info *types.Info, n ast.Node) []helperLookup {
+	var out []helperLookup
+	ast.Inspect(n, func(x ast.Node) bool {
+		call, ok := x.(*ast.CallExpr)
+		if !ok {
+			return true
+		}
+		cal := core.Callee(info, call)
+		if cal == nil {
+			return true
+		}
+		h := p.ByObj[cal.Origin()]
+		if h == nil || h.Decl.Body == nil || !core.IsModPath(h.Pkg.PkgPath) {
+			return true
+		}
+		hs := h.Obj.Type().(*types.Signature)
+		hinfo := h.Pkg.TypesInfo
+		for i := 0; i < hs.Params().Len() && i < len(call.Args); i++ {
+			key, isConst := core.ConstString(info, call.Args[i])
+			if !isConst {
+				continue
+			}
+			kp := hs.Params().At(i)
+			ast.Inspect(h.Decl.Body, func(y ast.Node) bool {
+				ix, ok := y.(*ast.IndexExpr)
+				if !ok || core.ObjOf(hinfo, ix.Index) != kp {
+					return true
+				}
+				if t := hinfo.TypeOf(ix.X); t == nil || !isStringAnyMap(t) {
+					return true
+				}
+				// the map is one of the helper's parameters, filled by the caller with a string->any map
+				if mo := core.ObjOf(hinfo, ix.X); mo != nil {
+					for j := 0; j < hs.Params().Len() && j < len(call.Args); j++ {
+						if hs.Params().At(j) == mo {
+							out = append(out, helperLookup{key, call, requiredLookup(p, hinfo, h.Decl.Body, ix), commaOK(h.Decl.Body, ix)})
+						}
+					}
+				}
+				return true
+			})
+		}
+		return true
+	})
+	return out
+}
+
 func jsonName(tag string) (name string, opts string, has bool) {
 	v, ok := reflect.StructTag(tag).Lookup("json")
 	if !ok {
@@ -248,6 +304,12 @@ func r39JSONKeysAgree(c *core.Ctx) {
 				// required: `v, ok := m["k"]` followed by `if !ok { return … }`
 				if requiredLookup(c.P, info, m.Decl.Body, l.expr) {
 					cd.required[l.key] = true
+				}
+			}
+			for _, hl := range helperKeyLookups(c.P, info, m.Decl.Body) {
+				cd.reader[hl.key] = true
+				if hl.required {
+					cd.required[hl.key] = true
 				}
 			}
 			// keys read by package helpers that are handed the decoded map (shared "optional description" code)
@@ -591,6 +653,21 @@ func r40DecodeTotal(c *core.Ctx) {
 	for _, f := range decodeFuncs {
 		if f.Pkg != pk {
 			continue
+		}
+		for _, hl := range helperKeyLookups(c.P, info, f.Decl.Body) {
+			mapID := ""
+			for _, a := range hl.call.Args {
+				if t := info.TypeOf(a); t != nil && isStringAnyMap(t) {
+					mapID = core.ExprStr(a)
+				}
+			}
+			construct := fmt.Sprintf("lookup-checked/%s/%s[%q]", f.Name, mapID, hl.key)
+			if mapID == "specials" {
+				c.Check(R, construct, hl.call.Pos(), hl.commaOK && hl.required, "comma-ok lookup in the helper, absence returns an error",
+					"special key "+hl.key+" is not looked up in comma-ok form with an error return on absence")
+			} else {
+				c.Check(R, construct, hl.call.Pos(), hl.commaOK, "comma-ok lookup in the helper", "single-value lookup of "+hl.key+" hides a missing key")
+			}
 		}
 		for _, l := range constKeyLookups(info, f.Decl.Body) {
 			construct := fmt.Sprintf("lookup-checked/%s/%s[%q]", f.Name, l.mapID, l.key)
